@@ -369,7 +369,7 @@ def rule_release(m, rep, rid='R4'):
     leaks = []
     nb = 0
     for b in cad.all_bodies:
-        if not b.file.endswith('queuing.rs'):
+        if not in_module_of(b, Q):
             continue
         nb += 1
         for bi, t in b.calls():
@@ -519,7 +519,7 @@ def rule_sentinel(m, rep):
     # other stores to the armed field
     others = []
     for x in cad.all_bodies:
-        if x.path in (cancel.path, m.sentinel_drop.path) or not x.file.endswith('queuing.rs'):
+        if x.path in (cancel.path, m.sentinel_drop.path) or not in_module_of(x, Q):
             continue
         for bi, blk in enumerate(x.blocks):
             for si, s in enumerate(blk['stmts']):
@@ -715,7 +715,7 @@ def rule_handler_plumbing(m, rep):
     # R3: the task closure is invoked only through the worker's task field, only in run
     tcs = []
     for b in cad.all_bodies:
-        if not b.file.endswith('queuing.rs'):
+        if not in_module_of(b, Q):
             continue
         Tb = None
         for bi, t in b.calls():
